@@ -67,7 +67,7 @@ RULE = ('append/kill: configurations {gzip, plain} x buffer {the real default, 6
         'archives (none; same name; plain + numbered + -meta; numbered + -meta; empty) -- 6 fixed lives (first append over '
         'a left-over file, roll-over + -meta over left-overs, appending with used numbers) + 4 sampled per quick run, the '
         'whole grid in thorough -- x EVERY primitive of the life (constructor .. close()) x {OSError, real kill} (writes: '
-        'prefix 0 and half), 30/60 second faults per life; 32 lives over stale journals of every name kind. startup: prefixes (plain, glob '
+        'prefix 0 and half), 30/60 second faults per life; 72 lives that start next to a crash journal (0/1/3 complete records + torn fragment, journal naming the cut; plain, numbered, -meta) which must be refused and be the identity on the directory; after every kill that leaves a journal: restarts in the default and the appending mode, directory compared byte for byte. startup: prefixes (plain, glob '
         'metacharacters, empty, non-ASCII) x journal present/absent x unrelated and near-miss names. '
         'non-trivial = at least one fault or kill is scheduled (startup: at least one file); '
         'distinct by (stream, kill mode, configuration, body, schedule)')
@@ -432,6 +432,43 @@ def exc_name(e):
 _LAST_EARLY = {}
 
 
+def refused_restarts(directory, prefix_path, compress, max_size=None):
+    """Start a new run next to the left-over journal(s), first WITHOUT and then with appending (the default mode
+    first: it is the one that truncates).  Each start must be refused AND must be the identity on the directory.
+    -> (all refused?, [(mode, name, bytes before, bytes after)] of files that differ)"""
+    WARCRecorder, WARCRecorderParams, _ = _mods()
+    refused, changed = True, []
+    for appending in (False, True):
+        before = dir_snapshot(directory)
+        try:
+            WARCRecorder(prefix_path, params=WARCRecorderParams(compress=compress, log=False, appending=appending,
+                                                                max_size=max_size))
+            refused = False
+        except OSError:
+            pass
+        late_collect()
+        after = dir_snapshot(directory)
+        for n in sorted(set(before) | set(after)):
+            if before.get(n) != after.get(n):
+                changed.append(('appending' if appending else 'non-appending', n, before.get(n), after.get(n)))
+        if changed or not refused:
+            break
+    return refused, changed
+
+
+def recipe_ok(archive, journal, compress, expect=None):
+    """The journal's recovery recipe: cut the archive at the journalled offset -> a valid record sequence
+    (and, when known, exactly `expect`)."""
+    m = _JOURNAL_RE.fullmatch(journal or b'')
+    if not m:
+        return None
+    n = int(m.group(1))
+    if archive is None or n > len(archive):
+        return False
+    cut = archive[:n]
+    return valid_sequence(cut, compress) and (expect is None or cut == expect)
+
+
 def late_collect():
     import gc
     gc.collect()
@@ -636,16 +673,11 @@ def run_real(case):
             status, trace, exc = _run_inproc(env, record, schedule)
             early = _LAST_EARLY.pop('v', None)
     archive, journal = env.state()      # read AFTER the exception was dropped and the collector ran
-    restart_refused = None
+    restart_refused, restart_changed = None, []
     if status == 'died' and journal is not None:
-        # a new run on this directory must refuse to start (the constructor raises before it writes anything)
-        WARCRecorder, WARCRecorderParams, _ = _mods()
-        try:
-            WARCRecorder(env.prefix, params=WARCRecorderParams(compress=env.compress, log=False, appending=True))
-            restart_refused = False
-        except OSError:
-            restart_refused = True
-    return {'early': early, 'exc': exc, 'restart_refused': restart_refused, 'before': before, 'record_bytes': record_bytes, 'status': status, 'trace': trace,
+        # a new run on this directory (default mode and --warc-append) must refuse to start and change nothing
+        restart_refused, restart_changed = refused_restarts(env.dir, env.prefix, env.compress)
+    return {'restart_changed': restart_changed, 'early': early, 'exc': exc, 'restart_refused': restart_refused, 'before': before, 'record_bytes': record_bytes, 'status': status, 'trace': trace,
             'archive': archive, 'journal': journal, 'env': env}
 
 
@@ -819,6 +851,12 @@ def check_oracles(ctx, case, r):
         if journal is not None and not r['restart_refused']:
             ctx.fail('startup-not-refused', '_check_journals_and_maybe_raise', pc,
                      'a new WARCRecorder started although the journal of the killed append exists')
+        elif r.get('restart_changed'):
+            mode, n, x, y = r['restart_changed'][0]
+            ctx.fail('refused-start-changed-archive', 'restart', pc,
+                     'the %s restart next to the journal of the killed append was refused, but file %r went from %s to %s '
+                     'bytes: the journal (offset %d) can no longer restore the earlier records'
+                     % (mode, n, None if x is None else len(x), None if y is None else len(y), len(b0)))
 
 
 def phases(trace):
@@ -1140,12 +1178,15 @@ def run_life_real(case):
         ext = ext_of(case['compress'])
         for suffix, k, stale in case['leftovers']:
             name = LIFE_PREFIX + suffix + ext
+            good = (leftover_bytes(case['compress'], k) if k else b'') if k is not None else None
             if k is not None:
                 with builtins.open(os.path.join(d, name), 'wb') as f:
-                    f.write(leftover_bytes(case['compress'], k) if k else b'')
+                    f.write(good)
+                    if stale == 'torn':     # what a killed append leaves: complete records + a fragment, journal names the cut
+                        f.write(leftover_bytes(case['compress'], 2)[:37])
             if stale:
                 with builtins.open(os.path.join(d, name + '-wpullinc'), 'wb') as f:
-                    f.write(b'wpull-journal-version:1\noffset:0\n')
+                    f.write(b'wpull-journal-version:1\noffset:%d\n' % (len(good) if stale == 'torn' else 0))
         init = dir_snapshot(d)
         schedule = sched_of(case)
         if any(a[0] == 'die' for a in schedule.values()) and case.get('kill_mode', 'fork') == 'fork':
@@ -1177,16 +1218,11 @@ def run_life_real(case):
             trace, names, snaps, exc = inj.trace, inj.names, inj.snaps, inj.exc
             early = inj.early
         final = dir_snapshot(d)
-        restart_refused = None
+        restart_refused, restart_changed = None, []
         if any(n.endswith('-wpullinc') for n in final):
-            WARCRecorder, WARCRecorderParams, _ = _mods()
-            try:
-                WARCRecorder(os.path.join(d, LIFE_PREFIX), params=WARCRecorderParams(
-                    compress=case['compress'], log=False, appending=True, max_size=case['max_size']))
-                restart_refused = False
-            except OSError:
-                restart_refused = True
-        return {'status': status, 'trace': trace, 'names': names, 'snaps': snaps, 'init': init, 'final': final,
+            restart_refused, restart_changed = refused_restarts(d, os.path.join(d, LIFE_PREFIX), case['compress'],
+                                                                case['max_size'])
+        return {'restart_changed': restart_changed, 'status': status, 'trace': trace, 'names': names, 'snaps': snaps, 'init': init, 'final': final,
                 'restart_refused': restart_refused, 'exc': exc, 'early': early}
     finally:
         shutil.rmtree(d, ignore_errors=True)
@@ -1272,6 +1308,32 @@ def check_life_oracles(ctx, case, r, steps):
              'a refused start is an OSError)' % r['exc'][0])
     if journals and not r['restart_refused']:
         fail('startup-not-refused', 'a new WARCRecorder started although journal(s) %r exist' % journals)
+    elif r.get('restart_changed'):
+        mode, n, x, y = r['restart_changed'][0]
+        ctx.fail('refused-start-changed-archive', 'restart', pc,
+                 'the %s restart next to journal(s) %r was refused, but file %r went from %s to %s bytes'
+                 % (mode, journals, n, None if x is None else len(x), None if y is None else len(y)))
+    stale = [n for n in init if n.endswith('-wpullinc')]
+    if stale:
+        # the life itself is a start next to a crash journal: it must be refused and be the identity on the directory
+        if status != 'raised':
+            fail('startup-not-refused', 'the run started (status %s) although journal(s) %r were in the directory' % (status, stale))
+        diff = [n for n in sorted(set(init) | set(final)) if init.get(n) != final.get(n)]
+        if diff:
+            n = diff[0]
+            ctx.fail('refused-start-changed-archive', 'restart', pc,
+                     'the start next to journal(s) %r was refused, but file %r went from %s to %s bytes'
+                     % (stale, n, None if init.get(n) is None else len(init[n]), None if final.get(n) is None else len(final[n])))
+        for j in stale:
+            A = j[:-len('-wpullinc')]
+            m0 = _JOURNAL_RE.fullmatch(init[j])
+            expect = init[A][:int(m0.group(1))] if (m0 and init.get(A) is not None) else None
+            ok = recipe_ok(final.get(A), final.get(j), compress, expect)
+            if ok is False and A in init:
+                ctx.fail('refused-start-changed-archive', 'restart', pc,
+                         'after the refused start, cutting %r at the offset its journal names no longer gives the earlier '
+                         'records (a valid record sequence)' % A)
+        return
     if not steps:
         if final != init:
             fail('other-archive-touched', 'the run ended before any append but the directory changed')
@@ -1419,6 +1481,11 @@ LEFTOVER_SETS = [
     [['', 0, False], ['-meta', 1, False]],
 ]
 STALE_SETS = [
+    [['', 3, 'torn']],
+    [['', 1, 'torn']],
+    [['', 0, 'torn']],
+    [['-00000', 3, False], ['-00001', 2, 'torn'], ['-meta', 1, False]],
+    [['-00000', 2, False], ['-meta', 2, 'torn']],
     [['', 2, True]],
     [['-00000', 2, False], ['-00001', 1, True]],
     [['-meta', 2, True]],
